@@ -166,3 +166,23 @@ package mvp4
 //@   loop 1: invariant comp.disjointLines(u.l1d) ==> (forall j, k :: 0 <= j && j < _idx0 && 0 <= k && k < 64 && int(u.l1d.lines[j].Boundary[0]) + k < len(u.ctx.Memory) ==> memAt(u, int(u.l1d.lines[j].Boundary[0]) + k) == u.l1d.lines[j].Data[k])
 //@   loop 1: invariant i > 0 ==> (forall k :: 0 <= k && k < 64 && int(u.l1d.lines[_idx0].Boundary[0]) + k < len(u.ctx.Memory) ==> memAt(u, int(u.l1d.lines[_idx0].Boundary[0]) + k) == u.l1d.lines[_idx0].Data[k])
 //@   loop 1: invariant forall x :: 0 <= x && x < len(u.ctx.Memory) && x <= 2147483647 && (forall j :: 0 <= j && j < _idx0 ==> !comp.covers(u.l1d.lines[j], int32(x))) && !comp.covers(u.l1d.lines[_idx0], int32(x)) ==> memAt(u, x) == old(memAt(u, x))
+
+// ---------------------------------------------------------------- branch unit (C03)
+// assert arms the check for every instruction type that can change the pc
+// (conditional: predicted fall-through pc+4; unconditional: "unknown", -1,
+// which no real pc equals); shouldFlushPipeline(pc) then reports a flush
+// exactly when an armed prediction differs from the resolved pc, and disarms.
+//@ func (*simpleBranchUnit).assert
+//@   mode bv
+//@   requires bu != nil && runner.Runner != nil
+//@   ensures risc.insType(runner.Runner).IsUnconditionalBranch() ==> bu.toCheck && bu.expectation == -1
+//@   ensures risc.insType(runner.Runner).IsConditionalBranch() ==> bu.toCheck && bu.expectation == runner.Pc + 4
+//@   ensures !risc.insType(runner.Runner).IsBranch() ==> bu.toCheck == old(bu.toCheck) && bu.expectation == old(bu.expectation)
+//@   assigns bu.toCheck, bu.expectation
+
+//@ func (*simpleBranchUnit).shouldFlushPipeline
+//@   mode bv
+//@   requires bu != nil
+//@   ensures result == (old(bu.toCheck) && old(bu.expectation) != pc)
+//@   ensures !bu.toCheck && bu.expectation == old(bu.expectation)
+//@   assigns bu.toCheck
